@@ -225,3 +225,39 @@ ERROR:
         free(cur);
         return FAIL;
 }
+
+/* R05l ------------------------------------------------------------------ */
+int ok_r05l_terminated_copy(const char *line, int n, char **out)
+{
+        char *tmp = NULL;
+        int i;
+        tmp = malloc(sizeof(char) * (n + 1));
+        for (i = 0; i < n; i++) {
+                tmp[i] = line[i];
+        }
+        tmp[i] = 0;
+        *out = tmp;
+        return OK;
+}
+int bad_r05l_terminator_past_end(const char *line, int n, char **out)
+{
+        char *tmp = NULL;
+        int i;
+        tmp = malloc(sizeof(char) * n);          /* no room for the terminator */
+        for (i = 0; i < n; i++) {
+                tmp[i] = line[i];
+        }
+        tmp[i] = 0;
+        *out = tmp;
+        return OK;
+}
+int bad_r05l_loop_one_too_far(int n, int **out)
+{
+        int *v = NULL;
+        v = malloc(sizeof(int) * n);
+        for (int i = 0; i <= n; i++) {
+                v[i] = 0;
+        }
+        *out = v;
+        return OK;
+}
